@@ -263,6 +263,15 @@ class ScriptedPeer(PeerBase):
             keep.append(v)
             self.send(s, v, 0, n, 1)
             return self.send(s, v, 0, n, 2)
+        if name == "badnow":            # a corrupted copy of the answer and, in the same instant, the valid answer itself
+            b = bytearray(v)
+            if self.framing == "tcp":
+                b[8] ^= 0x02
+            else:
+                b[-1] ^= 0x55
+            keep.append(v)
+            self.send(s, bytes(b), (args[0] if args else 0), n, 1)
+            return self.send(s, v, (args[0] if args else 0), n, 2)
         if name == "baddup":            # the same corrupted answer twice in the same instant (a garbled answer duplicated on the way)
             b = bytearray(v)
             if self.framing == "tcp":
